@@ -164,6 +164,7 @@ type Rig struct {
 	unboundR    []int
 	reboundL    []int
 	reboundR    []int
+	soak        bool     // long runs: pacers get rates far above the offered load
 	LiveAtClose []string // library goroutines still alive when Close returned
 	wake        map[int]int
 	BuildErr    error
@@ -172,10 +173,11 @@ type Rig struct {
 
 // rigSink is a harness io.Writer ("disk").
 type rigSink struct {
-	buf    bytes.Buffer
-	failAt int
-	n      int
-	e      *Env
+	discard bool
+	buf     bytes.Buffer
+	failAt  int
+	n       int
+	e       *Env
 }
 
 //go:norace
@@ -184,7 +186,7 @@ func (s *rigSink) Write(p []byte) (int, error) {
 	if s.failAt > 0 && s.n == s.failAt {
 		return 0, errInjected
 	}
-	if s.buf.Len() < 1<<20 {
+	if s.buf.Len() < 1<<20 && !s.discard {
 		s.buf.Write(p)
 	}
 	return len(p), nil
@@ -251,7 +253,7 @@ func (rg *Rig) buildKind(kind string, seed int64) (interceptor.Factory, error) {
 		})
 		return f, nil
 	case "dump_send", "dump_recv":
-		rs, cs := &rigSink{e: rg.e}, &rigSink{e: rg.e}
+		rs, cs := &rigSink{e: rg.e, discard: rg.soak}, &rigSink{e: rg.e, discard: rg.soak}
 		if chance(r, 150) {
 			rs.failAt = 1 + r.Intn(5)
 		}
@@ -277,6 +279,9 @@ func (rg *Rig) buildKind(kind string, seed int64) (interceptor.Factory, error) {
 	case "cc_noop", "cc_leaky":
 		f, err := cc.NewInterceptor(func() (cc.BandwidthEstimator, error) {
 			opts := []gcc.Option{gcc.WithLoggerFactory(lf), gcc.SendSideBWEInitialBitrate(pick(r, 100_000, 1_000_000, 5_000_000))}
+			if rg.soak {
+				opts = append(opts, gcc.SendSideBWEInitialBitrate(50_000_000), gcc.SendSideBWEMinBitrate(20_000_000))
+			}
 			if kind == "cc_noop" {
 				opts = append(opts, gcc.SendSideBWEPacer(gcc.NewNoOpPacer()))
 			}
@@ -288,7 +293,11 @@ func (rg *Rig) buildKind(kind string, seed int64) (interceptor.Factory, error) {
 		f.OnNewPeerConnection(func(_ string, est cc.BandwidthEstimator) { rg.estimators = append(rg.estimators, est) })
 		return f, nil
 	case "pacing":
-		f := pacing.NewInterceptor(pacing.WithLoggerFactory(lf), pacing.InitialRate(pick(r, 500_000, 5_000_000, 100_000_000)), pacing.Interval(time.Duration(pick(r, 1, 5, 10))*time.Millisecond))
+		rate := pick(r, 500_000, 5_000_000, 100_000_000)
+		if rg.soak {
+			rate = 100_000_000
+		}
+		f := pacing.NewInterceptor(pacing.WithLoggerFactory(lf), pacing.InitialRate(rate), pacing.Interval(time.Duration(pick(r, 1, 5, 10))*time.Millisecond))
 		rg.pacingSet = append(rg.pacingSet, func(rate int) { f.SetRate("rig", rate) })
 		return f, nil
 	case "jitterbuffer":
